@@ -320,6 +320,14 @@ def run_check(pid, P, tier, seed, replay, t0):
             why.append('%s:%s %s: %s' % (f['file'], f['line'], f.get('lemma'), f['msg']))
         why += problems + bad_tokens
         violations.append(('proof', 'proof obligations no longer check: ' + ' | '.join(dict.fromkeys(why)), {'broken': fails + pf, 'problems': problems, 'forbidden_tokens': bad_tokens, 'regenerated_sites_changed': changed}, False))
+    # 3b. panic inventory (C15): every panic-capable operation of the current source must be classified in panic_inventory.json
+    if P.get('inventory'):
+        known_sites = json.load(open(os.path.join(VERIF, 'panic_inventory.json')))['sites']
+        cur = rg.get('panic_inventory', {})
+        new_sites = sorted(k for k in cur if k not in known_sites)
+        if new_sites:
+            violations.append(('inventory', 'panic-capable operations not covered by the C15 model (not in panic_inventory.json): ' + '; '.join(new_sites[:8]), {'new_sites': new_sites}, False))
+        notes.append('panic inventory: %d sites in the source, %d classified, %d new' % (len(cur), len(known_sites), len(new_sites)))
     # 4. correspondence
     corr = []
     outdir = os.path.join(BUILD, 'cases', pid)
@@ -372,8 +380,11 @@ def run_check(pid, P, tier, seed, replay, t0):
                 continue
             violations.append(('correspondence', 'model and implementation disagree on %s case %s' % (c['name'], case.get('case')), {'run': c['name'], 'case': strip(case)}, False))
     # 5. decide
+    printed = set()
     for f, case in known_hits:
-        print('KNOWN-FINDING: property=%s %s' % (pid, f['what']))
+        if id(f) not in printed:
+            printed.add(id(f))
+            print('KNOWN-FINDING: property=%s %s' % (pid, f['what']))
     seen_known = set(id(f) for f, _ in known_hits)
     wall = time.time() - t0
     ev = evidence(pid, P, tier, seed, obligations, discharged, supporting, names, corr, rg, violations, notes, wall, dt_make, hb_dt)
